@@ -19,7 +19,7 @@ func init() {
 		Text: "By constant evaluation of the initialisers: the unescaped-byte sets of the path and query escapers contain none of ( ) , : ' % nor any byte < 0x21 or >= 0x80; the query set also excludes + & = # " +
 			"(the query reader decodes with url.QueryUnescape and splits on & and =); the path set excludes / ? #; the header replacer's old strings include % , ( ) ' : and each new string is url.QueryEscape of its old one; " +
 			"hexEscape emits % followed by the two upper-case hex digits; each writer constructor passes the escaper whose reader constructor installs the inverse decoder (path/header <-> url.PathUnescape, query <-> url.QueryUnescape).",
-		Props: []string{"C01", "C03"},
+		Props: []string{"C01", "C03", "C02"},
 		Floor: map[string]int{"v2": 8, "root": 8},
 		Run:   runR011,
 	})
@@ -140,6 +140,39 @@ func constCharsOf(c *core.Ctx, rel, varName string) (string, token.Pos, bool) {
 	return "", obj.Pos(), false
 }
 
+// reachableBodies returns the body of fd and of the functions of its package it reaches through static calls (to the
+// given depth): what a rule about "this function decides …" has to look at when part of it sits in a helper that cannot
+// be folded back (a helper that returns from inside a loop).
+func reachableBodies(c *core.Ctx, rel string, fd *ast.FuncDecl, depth int) []*ast.BlockStmt {
+	inf := info(c, rel)
+	seen := map[*ast.FuncDecl]bool{fd: true}
+	out := []*ast.BlockStmt{fd.Body}
+	frontier := []*ast.FuncDecl{fd}
+	for d := 0; d < depth && len(frontier) > 0; d++ {
+		var next []*ast.FuncDecl
+		for _, cur := range frontier {
+			ast.Inspect(cur.Body, func(n ast.Node) bool {
+				call, ok := n.(*ast.CallExpr)
+				if !ok {
+					return true
+				}
+				f := core.Callee(inf, call)
+				if f == nil || f.Pkg() == nil || c.M.Rel(f.Pkg().Path()) != rel {
+					return true
+				}
+				if cd := c.M.Decl(f.Origin()); cd != nil && cd.Body != nil && !seen[cd] {
+					seen[cd] = true
+					out = append(out, cd.Body)
+					next = append(next, cd)
+				}
+				return true
+			})
+		}
+		frontier = next
+	}
+	return out
+}
+
 func runR011(c *core.Ctx) {
 	const rel = "restlicodec"
 	inf := info(c, rel)
@@ -184,6 +217,24 @@ func runR011(c *core.Ctx) {
 			return true
 		})
 		c.Check(usesTab && usesHex && rawWrites == 1, rel, e.fn, "bytes outside the table are hex-escaped, bytes inside are copied", fd.Pos(), "", fmt.Sprintf("table consulted=%v hexEscape used=%v raw writes=%d (expected 1)", usesTab, usesHex, rawWrites))
+		// … and no other escaper's table decides anything here (a shared "nothing to escape" shortcut built on the path
+		// table lets + & = through in queries)
+		var foreign []string
+		for _, other := range []string{"unescapedPathCharacters", "unescapedQueryCharacters"} {
+			if other == e.tab {
+				continue
+			}
+			oo := c.M.LookupObj(rel, other)
+			for _, body := range reachableBodies(c, rel, fd, 3) {
+				ast.Inspect(body, func(n ast.Node) bool {
+					if x, ok := n.(*ast.IndexExpr); ok && oo != nil && mentions(inf, x.X, oo) {
+						foreign = append(foreign, c.M.Position(x.Pos()))
+					}
+					return true
+				})
+			}
+		}
+		c.Check(len(foreign) == 0, rel, e.fn, "only the escaper's own table decides what is copied unescaped", fd.Pos(), "", "consults "+"another context's table at "+strings.Join(foreign, ", ")+": bytes that are safe there but reserved here are copied unescaped")
 		// the input is walked byte by byte: ranging over a string decodes runes and replaces every byte that is not part of
 		// well-formed UTF-8 by U+FFFD, so byte strings (written through WriteString(string(v))) do not survive
 		var runeWalks []string
